@@ -6,6 +6,8 @@
 -/
 import AHP.Lemmas.BuilderTop
 import AHP.Spec.Validate
+import AHP.Lemmas.ValidateTree
+import AHP.Props.C01
 namespace AHP.C13
 open AHP AHP.Spec
 
@@ -345,6 +347,348 @@ theorem bal_wrapped_validates {ts : List Token} (hb : Bal ts) :
   rw [happ ts _ s1 s2 h2]
   simp [vRunT, h3]
 
+
+/-! ### C13d — the serialisation of any tree produced by this library validates
+
+  Trees are taken as the serialiser's token rendering sees them (`LNode`, `LNode.toks`, `toksL` of
+  Lemmas/RoundTrip.lean; `C01.html_eq_render`: `getHTML` writes `renderToks` of these tokens).  `LNode.WF` is the
+  serialiser's image (lower-case names, void ⇒ self-closing, self-closing ⇒ empty); `LNode.Legal` says every
+  stored attribute name is legal — which holds for every tree the builder builds (`built_trees_legal`), because
+  the constructor loop drops illegal names (`stored_names_legal`). -/
+
+/-- **the intake drops illegal names.** Whatever attribute list the tokenizer delivers, the store built from
+    it holds legal names only; so does any store after further intake. -/
+theorem stored_names_legal (xs : List Attr) :
+    (intake xs AttrState.empty).Legal ∧ ∀ st : AttrState, st.Legal → (intake xs st).Legal :=
+  ⟨intake_empty_legal xs, intake_legal xs⟩
+
+/-- the attribute pairs `getStartTag` writes have legal names when the stored names are legal -/
+theorem written_names_legal (a : AttrState) (h : a.Legal) : legalAttrs a.view = true := view_legal a h
+
+/-- every tree the plain parser builds — any token sequence, first or second pass — has legal stores -/
+theorem built_trees_legal (toks : List Token) (d : Doc) (second : Bool) (h : feedTokens toks = .doc d second) :
+    ∀ r, d.root = some r → r.LegalN := by
+  have key : ∀ (l : List Token) (b : Bool), FeedResult.ofPass b (run BState.init l) = .doc d second →
+      ∀ r, d.root = some r → r.LegalN := by
+    intro l b hl r hr
+    rw [run_eq] at hl
+    cases hrun : runT BState.init.tree l with
+    | ok s' =>
+      rw [hrun] at hl
+      simp only [Outcome.map, FeedResult.ofPass, FeedResult.doc.injEq] at hl
+      have hleg := finish_legal s' (runT_legal l _ s' TState.init_legal hrun)
+      rw [← hl.1] at hr
+      exact hleg.2 r hr
+    | multipleRoot => rw [hrun] at hl; simp [Outcome.map, FeedResult.ofPass] at hl
+    | invalidClose => rw [hrun] at hl; simp [Outcome.map, FeedResult.ofPass] at hl
+    | missedClose => rw [hrun] at hl; simp [Outcome.map, FeedResult.ofPass] at hl
+    | invalidAttr => rw [hrun] at hl; simp [Outcome.map, FeedResult.ofPass] at hl
+  unfold feedTokens at h
+  split at h
+  · exact key _ _ h
+  · exact key _ _ h
+
+/-- every tree the plain parser builds has the element shape of the serialiser's image: lower-case names,
+    void ⇒ self-closing, self-closing ⇒ no blocks -/
+theorem built_trees_wf (toks : List Token) (d : Doc) (second : Bool) (h : feedTokens toks = .doc d second) :
+    ∀ r, d.root = some r → r.WFN := by
+  have key : ∀ (l : List Token) (b : Bool), FeedResult.ofPass b (run BState.init l) = .doc d second →
+      ∀ r, d.root = some r → r.WFN := by
+    intro l b hl r hr
+    rw [run_eq] at hl
+    cases hrun : runT BState.init.tree l with
+    | ok s' =>
+      rw [hrun] at hl
+      simp only [Outcome.map, FeedResult.ofPass, FeedResult.doc.injEq] at hl
+      have hwf := finish_wfs s' (runT_wfs l _ s' TState.init_wfs hrun)
+      rw [← hl.1] at hr
+      exact hwf.2 r hr
+    | multipleRoot => rw [hrun] at hl; simp [Outcome.map, FeedResult.ofPass] at hl
+    | invalidClose => rw [hrun] at hl; simp [Outcome.map, FeedResult.ofPass] at hl
+    | missedClose => rw [hrun] at hl; simp [Outcome.map, FeedResult.ofPass] at hl
+    | invalidAttr => rw [hrun] at hl; simp [Outcome.map, FeedResult.ofPass] at hl
+  unfold feedTokens at h
+  split at h
+  · exact key _ _ h
+  · exact key _ _ h
+
+/-- … and so does the tree the round trip of C01 lands in (`reintake`), whatever the original stores held -/
+theorem reparsed_tree_legal (t : LNode) : t.toNode.reintake.LegalN := reintake_legalN _
+
+/-- **C13d (tokens of a tree are balanced).** For every tree in the serialiser's image with legal stored names,
+    any size and depth, the token list of its serialisation is in the grammar `Bal`: text-like tokens are inert,
+    a self-closing element (void or written `<x />`) is a single `startend` leaf, every other element is its
+    start tag, the balanced tokens of its blocks, and its own end tag; all attribute names legal. -/
+theorem tokens_of_tree_balanced (t : LNode) (h : t.WF) (hl : t.Legal) : Bal t.toks := toks_bal t h hl
+
+theorem tokens_of_forest_balanced (ks : List LNode) (h : WFLL ks) (hl : LegalLL ks) : Bal (toksL ks) :=
+  toksL_bal ks h hl
+
+theorem vRunT_append (l1 : List Token) : ∀ (l2 : List Token) (sa sb : TState),
+    vRunT sa l1 = .ok sb → vRunT sa (l1 ++ l2) = vRunT sb l2 := by
+  induction l1 with
+  | nil => intro l2 sa sb h; simp [vRunT] at h; rw [h]; rfl
+  | cons x l1 ihl =>
+    intro l2 sa sb h
+    simp only [vRunT, List.cons_append] at h ⊢
+    cases hx : vStepT sa x <;> rw [hx] at h <;> simp at h ⊢
+    exact ihl l2 _ sb h
+
+/-- **C13b/c (whole-run form).** On a balanced token list with legal attribute names the validating parser and
+    the plain parser do the same thing in every state: same tree, or the same `MultipleRootNodeException`. -/
+theorem bal_vRunT_eq_runT {ts : List Token} (hb : Bal ts) : ∀ s : TState, vRunT s ts = runT s ts := by
+  induction hb with
+  | nil => intro s; rfl
+  | inert t ts hi _ ih =>
+    intro s
+    have hst : vStepT s t = stepT s t := by
+      cases t <;> first | rfl | (simp [isInert] at hi)
+    simp only [vRunT, runT, hst]
+    cases stepT s t <;> simp [ih]
+  | void n a ts hl _ _ ih =>
+    intro s
+    have hst : vStepT s (.start n a) = stepT s (.start n a) := by
+      simp only [legalAttrs] at hl; simp [vStepT, stepT, hl]
+    simp only [vRunT, runT, hst]
+    cases stepT s (.start n a) <;> simp [ih]
+  | selfClosed n a ts hl _ ih =>
+    intro s
+    have hst : vStepT s (.startend n a) = stepT s (.startend n a) := by
+      simp only [legalAttrs] at hl; simp [vStepT, stepT, hl]
+    simp only [vRunT, runT, hst]
+    cases stepT s (.startend n a) <;> simp [ih]
+  | elem n a inner ts hl hv hin _ ihi iht =>
+    intro s
+    have hst : vStepT s (.start n a) = stepT s (.start n a) := by
+      simp only [legalAttrs] at hl; simp [vStepT, stepT, hl]
+    simp only [List.cons_append, vRunT, runT, hst]
+    cases hs1 : stepT s (.start n a) with
+    | ok s1 =>
+      simp only
+      -- the start tag of a non-void element opens a frame
+      have hopen : s1.stack = ⟨lower n, intake a AttrState.empty, []⟩ :: s.stack := by
+        simp only [stepT, handleStart] at hs1
+        rw [isVoid_eq, hv] at hs1
+        split at hs1
+        · simp at hs1; rw [← hs1]
+        · cases hs1
+      have hne1 : s1.stack ≠ [] := by rw [hopen]; simp
+      obtain ⟨s2, h2, hn2⟩ := bal_accepted_inside hin s1 hne1
+      have h2' : runT s1 inner = .ok s2 := by rw [← ihi s1]; exact h2
+      rw [vRunT_append inner _ s1 s2 h2, runT_append, h2']
+      simp only
+      have hn2' : names s2 = lower n :: names s := by rw [hn2]; simp [names, hopen]
+      cases hs2 : s2.stack with
+      | nil => simp [names, hs2] at hn2'
+      | cons f fs =>
+        have hf : f.name = lower n := by simp [names, hs2] at hn2'; exact hn2'.1
+        have h3 : vStepT s2 (.end_ (lower n)) = .ok (pop1 s2) := by simp [vStepT, hs2, hf]
+        have h4 : stepT s2 (.end_ (lower n)) = .ok (pop1 s2) := by
+          have hc : (List.map (fun x => x.name) s2.stack).contains (lower n) = true := by
+            rw [hs2]; simp [hf]
+          simp only [stepT, handleEnd, hc, if_true]
+          have : popTo (lower n) s2.stack.length s2 = pop1 s2 := by
+            rw [hs2]; simp [popTo, hs2, hf]
+          rw [this]
+        simp only [vRunT, runT, h3, h4]
+        exact iht (pop1 s2)
+    | multipleRoot => rfl
+    | invalidClose => rfl
+    | missedClose => rfl
+    | invalidAttr => rfl
+
+theorem bal_vRun_eq_run {ts : List Token} (hb : Bal ts) (s : BState) : vRun s ts = run s ts := by
+  rw [vRun_eq, run_eq, bal_vRunT_eq_runT hb]
+
+/-- **C13b/c/d (documents).** A balanced token list with legal attribute names is treated by the validating
+    parser exactly as by the plain parser — both passes: same document, same pass, never one of the three
+    validator exceptions. -/
+theorem bal_vFeed_eq_feed {ts : List Token} (hb : Bal ts) : vFeedTokens ts = feedTokens ts := by
+  unfold vFeedTokens feedTokens
+  rw [bal_vRun_eq_run hb, bal_vRun_eq_run (bal_wrapToks hb)]
+
+theorem doctypeToks_bal (dt : Option Str) {ts : List Token} (h : Bal ts) : Bal (C01.doctypeToks dt ++ ts) := by
+  unfold C01.doctypeToks
+  cases dt with
+  | none => exact h
+  | some d =>
+    by_cases hd : d.isEmpty = true
+    · simpa [hd] using h
+    · simp only [hd, Bool.false_eq_true, if_false, List.cons_append, List.nil_append]
+      exact Bal.inert _ _ rfl (Bal.inert _ _ rfl h)
+
+private theorem foldl_stepD_id (ts : List Token) (d0 : Option Str)
+    (h : ∀ t ∈ ts, ∀ x, t ≠ .decl x ∧ t ≠ .unknownDecl x) : ts.foldl stepD d0 = d0 := by
+  induction ts with
+  | nil => rfl
+  | cons t ts ih =>
+    have ht := h t (by simp)
+    simp only [List.foldl_cons]
+    have : stepD d0 t = d0 := by
+      cases t <;> simp [stepD]
+      · exact absurd rfl (ht _).1
+      · exact absurd rfl (ht _).2
+    rw [this]
+    exact ih (fun t' ht' => h t' (List.mem_cons_of_mem _ ht'))
+
+mutual
+private theorem no_decl_in (t : LNode) (h : t.WF) (x : Str) :
+    Token.decl x ∉ t.toks ∧ Token.unknownDecl x ∉ t.toks := by
+  match t, h with
+  | .tok tk, h =>
+    simp only [LNode.WF] at h
+    simp only [LNode.toks, List.mem_singleton]
+    constructor <;> (intro e; rw [← e] at h; simp [Spec.textOf] at h)
+  | .elem n a sc kids, h =>
+    simp only [LNode.WF] at h
+    have ih := no_decl_inL kids h.2.2.2 x
+    unfold LNode.toks
+    split
+    · simp
+    · simp only [List.mem_cons, List.mem_append, not_or]
+      exact ⟨⟨by simp, ih.1, by simp⟩, ⟨by simp, ih.2, by simp⟩⟩
+private theorem no_decl_inL (ks : List LNode) (h : WFLL ks) (x : Str) :
+    Token.decl x ∉ toksL ks ∧ Token.unknownDecl x ∉ toksL ks := by
+  match ks, h with
+  | [], _ => simp [toksL]
+  | k :: ks, h =>
+    simp only [WFLL] at h
+    simp only [toksL, List.mem_append, not_or]
+    exact ⟨⟨(no_decl_in k h.1 x).1, (no_decl_inL ks h.2 x).1⟩, ⟨(no_decl_in k h.1 x).2, (no_decl_inL ks h.2 x).2⟩⟩
+end
+
+/-- the tokens `getHTML` writes for a single-root document: the doctype line, then the root's tokens -/
+def docToks (dt : Option Str) (root : LNode) : List Token := C01.doctypeToks dt ++ root.toks
+
+/-- **C13d (single root, tokens).** For every single-root document in the serialiser's image with legal stored
+    names — any size, depth, doctype — the validating parser accepts the tokens of `getHTML` in its first pass and
+    builds the document the plain parser builds from them: the tree with its stores re-read (C01a). -/
+theorem serialisation_validates (dt : Option Str) (n : Str) (a : AttrState) (sc : Bool) (kids : List LNode)
+    (hwf : (LNode.elem n a sc kids).WF) (hleg : (LNode.elem n a sc kids).Legal) :
+    vFeedTokens (docToks dt (.elem n a sc kids)) = feedTokens (docToks dt (.elem n a sc kids)) ∧
+    vFeedTokens (docToks dt (.elem n a sc kids))
+      = .doc ⟨(C01.doctypeToks dt).foldl stepD none, some (LNode.elem n a sc kids).toNode.reintake⟩ false := by
+  have hbal : Bal (docToks dt (.elem n a sc kids)) :=
+    doctypeToks_bal dt (tokens_of_tree_balanced _ hwf hleg)
+  have heq := bal_vFeed_eq_feed hbal
+  refine ⟨heq, ?_⟩
+  rw [heq]
+  have hroot := C01.root_rt n a sc kids hwf
+  have hpre : runT TState.init (docToks dt (.elem n a sc kids)) = runT TState.init (LNode.elem n a sc kids).toks := by
+    unfold docToks C01.doctypeToks
+    cases dt with
+    | none => rfl
+    | some d =>
+      by_cases hd : d.isEmpty = true
+      · simp [hd]
+      · have h1 : stepT TState.init (.data ['\n']) = .ok TState.init := by
+          simp [stepT, TState.init, isBlank, strip, lstrip, rstrip, isWs]
+        have h2 : stepT TState.init (.decl d) = .ok TState.init := rfl
+        simp only [hd, Bool.false_eq_true, if_false, List.cons_append, List.nil_append, runT, h1, h2]
+  unfold feedTokens
+  rw [run_eq]
+  simp only [BState.init]
+  rw [hpre, hroot]
+  simp only [Outcome.map, FeedResult.ofPass, BState.doc, finish_nil, docToks, List.foldl_append]
+  rw [foldl_stepD_id _ _ (fun t ht x => ⟨fun e => (no_decl_in _ hwf x).1 (e ▸ ht), fun e => (no_decl_in _ hwf x).2 (e ▸ ht)⟩)]
+
+/-- **C13d (several top-level nodes, tokens).** A multi-root document (the plain first pass meets a second
+    top-level node) with legal stored names: the validating parser raises the same `MultipleRootNodeException`
+    in its first pass, accepts the tokens inside the wrapper, and builds the plain parser's document. -/
+theorem serialisation_validates_multi (ks : List LNode) (hwf : WFLL ks) (hleg : LegalLL ks)
+    (hmulti : run BState.init (toksL ks) = .multipleRoot) :
+    vFeedTokens (toksL ks) = feedTokens (toksL ks) ∧
+    vFeedTokens (toksL ks)
+      = .doc ⟨none, some (.elem wrapperName AttrState.empty false (reintakeL (toNodeL ks)))⟩ true := by
+  have hbal : Bal (toksL ks) := tokens_of_forest_balanced ks hwf hleg
+  have heq := bal_vFeed_eq_feed hbal
+  refine ⟨heq, ?_⟩
+  rw [heq]
+  unfold feedTokens
+  rw [hmulti]
+  simp only
+  have hlead : leadDoctype (toksL ks) = none := by
+    unfold leadDoctype
+    split
+    · rename_i d r heq'
+      exact absurd (by rw [heq']; simp) (no_decl_inL ks hwf d).1
+    · rename_i ws d r heq'
+      exact absurd (by rw [heq']; simp) (no_decl_inL ks hwf d).1
+    · rfl
+  have hwrap : wrapToks (toksL ks) = .start wrapperName [] :: toksL ks ++ [.end_ wrapperName] := by
+    simp [wrapToks, hlead]
+  rw [hwrap, run_eq]
+  simp only [BState.init]
+  have hs : stepT TState.init (.start wrapperName []) = .ok ⟨[⟨wrapperName, AttrState.empty, []⟩], none⟩ := by
+    simp [stepT, handleStart, TState.init, TState.hasRoot, wrapper_lower, wrapper_not_void, intake]
+  have hrun : runT TState.init (.start wrapperName [] :: toksL ks ++ [.end_ wrapperName])
+      = .ok ⟨[], some (.elem wrapperName AttrState.empty false (reintakeL (toNodeL ks)))⟩ := by
+    simp only [List.cons_append, runT, hs]
+    rw [runT_append, lforest_rt ks hwf ⟨wrapperName, AttrState.empty, []⟩ [] none]
+    simp [runT, stepT, handleEnd, popTo, pop1, addNode, Frame.close]
+  rw [hrun]
+  simp only [Outcome.map, FeedResult.ofPass, BState.doc, finish_nil]
+  have hno : ∀ t ∈ (Token.start wrapperName [] :: toksL ks ++ [Token.end_ wrapperName]), ∀ x,
+      t ≠ .decl x ∧ t ≠ .unknownDecl x := by
+    intro t ht x
+    simp only [List.cons_append, List.mem_cons, List.mem_append] at ht
+    rcases ht with e | ht | e
+    · subst e; simp
+    · exact ⟨fun e => (no_decl_inL ks hwf x).1 (e ▸ ht), fun e => (no_decl_inL ks hwf x).2 (e ▸ ht)⟩
+    · rcases e with e | e
+      · subst e; simp
+      · simp at e
+  rw [foldl_stepD_id _ _ hno]
+
+/-- **C13d, closing sentence of the property, for parsed documents.** Take ANY token sequence `toks0`, however
+    badly nested; let the plain parser build its document in the first pass; present its root in lexical normal
+    form (`root.toNode`, every text block one text-like token).  Then the tokens `getHTML` writes for it are
+    accepted by the validating parser, which builds the same document as the plain parser: `WF` and `Legal` are
+    not assumed but derived from the builder (`built_trees_wf`, `built_trees_legal`). -/
+theorem serialisation_of_parsed_validates (toks0 : List Token) (d : Doc) (second : Bool)
+    (h : feedTokens toks0 = .doc d second)
+    (n : Str) (a : AttrState) (sc : Bool) (kids : List LNode)
+    (hroot : d.root = some (LNode.elem n a sc kids).toNode) (htl : (LNode.elem n a sc kids).TextLike) :
+    vFeedTokens (docToks d.doctype (.elem n a sc kids)) = feedTokens (docToks d.doctype (.elem n a sc kids)) ∧
+    vFeedTokens (docToks d.doctype (.elem n a sc kids))
+      = .doc ⟨(C01.doctypeToks d.doctype).foldl stepD none, some (LNode.elem n a sc kids).toNode.reintake⟩ false :=
+  serialisation_validates d.doctype n a sc kids
+    (wf_of_toNode _ htl (built_trees_wf toks0 d second h _ hroot))
+    (legal_of_toNode _ (built_trees_legal toks0 d second h _ hroot))
+
+/-- **C13d (text level, single root).** With the side condition of the lexer round trip (`ListOK`: every token
+    in the serialiser's image and followed by something that keeps it a token of its own), the TEXT `getHTML`
+    writes lexes to those tokens, and the validating parser accepts them and builds the plain parser's document. -/
+theorem serialisation_validates_text (dt : Option Str) (n : Str) (a : AttrState) (sc : Bool) (kids : List LNode)
+    (hwf : (LNode.elem n a sc kids).WF) (hleg : (LNode.elem n a sc kids).Legal) (hw : n ≠ wrapperName)
+    (hok : ListOK (docToks dt (.elem n a sc kids))) :
+    ∃ toks, lexStrict (docHTML dt (LNode.elem n a sc kids).toNode) = some toks ∧
+      vFeedTokens toks = feedTokens toks ∧
+      vFeedTokens toks
+        = .doc ⟨(C01.doctypeToks dt).foldl stepD none, some (LNode.elem n a sc kids).toNode.reintake⟩ false := by
+  refine ⟨docToks dt (.elem n a sc kids), ?_, serialisation_validates dt n a sc kids hwf hleg⟩
+  rw [C01.docHTML_single dt n a sc kids hwf hw]
+  exact lexStrict_renderToks _ hok
+
+/-- **C13d (text level, several top-level nodes).** -/
+theorem serialisation_validates_text_multi (ks : List LNode) (hwf : WFLL ks) (hleg : LegalLL ks)
+    (hok : ListOK (toksL ks)) (hmulti : run BState.init (toksL ks) = .multipleRoot) :
+    ∃ toks, lexStrict (docHTML none (.elem wrapperName AttrState.empty false (toNodeL ks))) = some toks ∧
+      vFeedTokens toks = feedTokens toks ∧
+      vFeedTokens toks
+        = .doc ⟨none, some (.elem wrapperName AttrState.empty false (reintakeL (toNodeL ks)))⟩ true := by
+  refine ⟨toksL ks, ?_, serialisation_validates_multi ks hwf hleg hmulti⟩
+  have : docHTML none (.elem wrapperName AttrState.empty false (toNodeL ks)) = renderToks (toksL ks) := by
+    simp [docHTML, Node.innerHTML, C01.htmlL_eq_render ks hwf]
+  rw [this]
+  exact lexStrict_renderToks _ hok
+
+/-- **closing the loop**: what the validating parser built from a serialisation is itself a tree with legal
+    stores (`reparsed_tree_legal`), so — being again in the serialiser's image — its own serialisation
+    validates again. -/
+theorem validated_tree_legal (n : Str) (a : AttrState) (sc : Bool) (kids : List LNode) :
+    (LNode.elem n a sc kids).toNode.reintake.LegalN := reparsed_tree_legal _
+
 /-! #### Non-vacuity -/
 example : Bal [.start "div".toList [("id".toList, some "a".toList)], .data "x".toList, .start "br".toList [],
     .end_ "div".toList] :=
@@ -352,6 +696,113 @@ example : Bal [.start "div".toList [("id".toList, some "a".toList)], .data "x".t
     (Bal.inert _ _ (by decide) (Bal.void _ _ _ (by decide) (by decide) Bal.nil)) Bal.nil
 
 example : classify [] false [.start "a".toList [], .end_ "b".toList] = some .invalidClose := by decide
+
+/-! non-vacuity of C13d: a nested document with a doctype, an attribute, a void element, a self-closed non-void
+    element, text and a reference meets every hypothesis (`WF`, `Legal`, `ListOK`), its serialisation is the
+    expected text, and the validating parser accepts it -/
+def sampleTree : LNode :=
+  .elem "div".toList ⟨[("id".toList, some "a".toList)], [], []⟩ false
+    [.tok (.data "x".toList),
+     .elem "br".toList AttrState.empty true [],
+     .elem "span".toList AttrState.empty true [],
+     .elem "p".toList AttrState.empty false [.tok (.entity "amp".toList)]]
+
+theorem sampleTree_wf : sampleTree.WF := by
+  simp only [sampleTree, LNode.WF, WFLL, and_true]
+  refine ⟨by decide, by decide, by simp, by decide, ⟨by decide, by simp⟩, ⟨by decide, by simp⟩,
+    by decide, by decide, by simp, by decide⟩
+
+theorem sampleTree_legal : sampleTree.Legal := by
+  simp only [sampleTree, LNode.Legal, LegalLL, and_true, true_and]
+  refine ⟨?_, AttrState.empty_legal, AttrState.empty_legal, AttrState.empty_legal⟩
+  intro p hp
+  simp at hp
+  subst hp
+  decide
+
+example : docToks (some "DOCTYPE html".toList) sampleTree =
+    [.decl "DOCTYPE html".toList, .data "\n".toList,
+     .start "div".toList [("id".toList, some "a".toList)], .data "x".toList, .startend "br".toList [],
+     .startend "span".toList [], .start "p".toList [], .entity "amp".toList, .end_ "p".toList,
+     .end_ "div".toList] := by decide
+
+example : docHTML (some "DOCTYPE html".toList) sampleTree.toNode
+    = "<!DOCTYPE html>\n<div id=\"a\" >x<br /><span /><p >&amp;</p></div>".toList := by decide
+
+example : Bal sampleTree.toks := tokens_of_tree_balanced _ sampleTree_wf sampleTree_legal
+
+private theorem tagOK (c : Char) (cs : Str) (h1 : isAlpha c = true) (h2 : ∀ x ∈ c :: cs, isTagCh x = true)
+    (h3 : lower (c :: cs) = c :: cs) : TagNameOK (c :: cs) := ⟨⟨c, cs, rfl, h1⟩, h2, h3⟩
+
+theorem sampleTree_listOK : ListOK (docToks (some "DOCTYPE html".toList) sampleTree) := by
+  have e : docToks (some "DOCTYPE html".toList) sampleTree =
+    [.decl "DOCTYPE html".toList, .data "\n".toList,
+     .start "div".toList [("id".toList, some "a".toList)], .data "x".toList, .startend "br".toList [],
+     .startend "span".toList [], .start "p".toList [], .entity "amp".toList, .end_ "p".toList,
+     .end_ "div".toList] := by decide
+  rw [e]
+  apply listOK_of_noAdjData
+  · intro t ht
+    simp only [List.mem_cons, List.mem_nil_iff, or_false] at ht
+    rcases ht with rfl | rfl | rfl | rfl | rfl | rfl | rfl | rfl | rfl | rfl
+    · exact ⟨by decide, by decide⟩
+    · exact Or.inr (Or.inr ⟨by decide, by decide⟩)
+    · refine ⟨tagOK 'd' _ (by decide) (by decide) (by decide), by decide, ?_⟩
+      intro x hx
+      simp only [List.mem_cons, List.mem_nil_iff, or_false] at hx
+      subst hx
+      exact ⟨⟨by decide, by decide, by decide⟩, by simp [ValueOK], by decide⟩
+    · exact Or.inr (Or.inr ⟨by decide, by decide⟩)
+    · exact ⟨tagOK 'b' _ (by decide) (by decide) (by decide), fun x hx => by simp at hx⟩
+    · exact ⟨tagOK 's' _ (by decide) (by decide) (by decide), fun x hx => by simp at hx⟩
+    · exact ⟨tagOK 'p' _ (by decide) (by decide) (by decide), by decide, fun x hx => by simp at hx⟩
+    · exact ⟨⟨'a', _, rfl, by decide⟩, by decide⟩
+    · exact tagOK 'p' _ (by decide) (by decide) (by decide)
+    · exact tagOK 'd' _ (by decide) (by decide) (by decide)
+  · intro t ht
+    simp only [List.mem_cons, List.mem_nil_iff, or_false] at ht
+    rcases ht with rfl | rfl | rfl | rfl | rfl | rfl | rfl | rfl | rfl | rfl <;>
+      first | trivial | exact ⟨by decide, by decide⟩
+  · simp [NoAdjData, isData]
+
+/-- the sample document's text validates: lexed, accepted in the first pass, same document as the plain parser -/
+example : ∃ toks, lexStrict "<!DOCTYPE html>\n<div id=\"a\" >x<br /><span /><p >&amp;</p></div>".toList = some toks ∧
+    vFeedTokens toks = feedTokens toks ∧
+    vFeedTokens toks = .doc ⟨some "DOCTYPE html".toList, some sampleTree.toNode.reintake⟩ false := by
+  have h := serialisation_validates_text (some "DOCTYPE html".toList) _ _ _ _ sampleTree_wf sampleTree_legal
+    (by decide) sampleTree_listOK
+  have e : docHTML (some "DOCTYPE html".toList) sampleTree.toNode
+    = "<!DOCTYPE html>\n<div id=\"a\" >x<br /><span /><p >&amp;</p></div>".toList := by decide
+  rw [← e]
+  exact h
+
+
+/-- a badly nested, unclosed token sequence: its parsed document (implicit closes made explicit) validates -/
+example : ∃ d, feedTokens [.start "DIV".toList [("ID".toList, some "a".toList), ("1bad".toList, none)],
+      .start "b".toList [], .data "x".toList, .start "br".toList [], .end_ "div".toList, .end_ "p".toList] = .doc d false ∧
+    d.root = some (LNode.elem "div".toList ⟨[("id".toList, some "a".toList)], [], []⟩ false
+      [.elem "b".toList AttrState.empty false [.tok (.data "x".toList), .elem "br".toList AttrState.empty true []]]).toNode :=
+  ⟨_, rfl, rfl⟩
+
+/-- a two-root forest (element, text, void element) takes the wrapper pass in both parsers -/
+def sampleForest : List LNode :=
+  [.elem "a".toList AttrState.empty false [], .tok (.data "x".toList), .elem "br".toList AttrState.empty true []]
+
+example : vFeedTokens (toksL sampleForest)
+    = .doc ⟨none, some (.elem wrapperName AttrState.empty false (reintakeL (toNodeL sampleForest)))⟩ true :=
+  (serialisation_validates_multi sampleForest
+    (by simp only [sampleForest, WFLL, LNode.WF, and_true]
+        exact ⟨⟨by decide, by decide, by simp⟩, by decide, by decide, by decide, by simp⟩)
+    (by simp only [sampleForest, LegalLL, LNode.Legal, and_true, true_and]
+        exact ⟨AttrState.empty_legal, AttrState.empty_legal⟩)
+    (by rfl)).2
+
+/-- the hypothesis `Legal` is needed: a store holding an illegal name (which the constructor would never let in)
+    serialises to a text the validating parser rejects -/
+example : vFeedTokens (LNode.elem "a".toList ⟨[("1x".toList, none)], [], []⟩ false []).toks
+    = .raised .invalidAttr := by rfl
+
+
 example : classify [] false [.start "a".toList [], .start "b".toList [], .end_ "a".toList] = some .missedClose := by decide
 
 end AHP.C13
